@@ -116,6 +116,26 @@ fn generation_contract() {
     core::mem::forget(t);
 }
 
+/// C11: a snapshot (`clone`) shares the generation counter with its original, so restoring a
+/// snapshot after a failed operation does NOT rewind the generation: views created before the
+/// failed operation still see that something happened.
+#[kani::proof]
+#[kani::unwind(4)]
+fn clone_shares_generation_contract() {
+    let mut t = Tds2::empty();
+    let g0: u64 = kani::any();
+    kani::assume(g0 < u64::MAX - 4);
+    t.generation.store(g0, Ordering::Relaxed);
+    let snapshot = t.clone();
+    assert!(snapshot.generation() == g0, "OBL clone-reads-same: a clone starts at the original's generation");
+    t.bump_generation(); // the failed operation's edits
+    assert!(snapshot.generation() == g0 + 1, "OBL clone-shares-counter: a bump made through the original is visible through the snapshot");
+    let old = core::mem::replace(&mut t, snapshot); // the rollback `self.tds = tds_snapshot`
+    assert!(t.generation() == g0 + 1, "OBL rollback-keeps-bumps: restoring the snapshot does not rewind the generation");
+    core::mem::forget(old);
+    core::mem::forget(t);
+}
+
 // =========================================================================================
 // C11: remove_cells_by_keys - whenever cells were removed the generation is bumped, so every
 // dependent view (convex hull) sees the change; nothing removed => nothing bumped.
